@@ -85,7 +85,9 @@ class RealPart(Module):
         return np.real(z)
 
     def _sensitivity(self, dx):
-        return np.real(dx)
+        dz = np.real(dx)
+        # Sensitivity type must match the (complex) state, else it cannot accumulate with complex contributions
+        return dz + 0j if np.iscomplexobj(self.sig_in[0].state) else dz
 
 
 class ImagPart(Module):
